@@ -484,6 +484,8 @@ def rule_linecap(c: Ctx) -> RuleResult:
     r = RuleResult("LINECAP", "the block cursor never leaves the region: state.line <= state.lineMax at every return of every block rule "
                               "and of the block dispatcher (co-inductive contract, validated at every dispatch / call site); lineMax is "
                               "only shrunk within the region or restored")
+    c = c.normalised("rules_block/")
+    r.notes += c.norm_notes()
     m = _Model(c)
     _CTX[:] = [c]
     n_sites = 0
